@@ -1,6 +1,13 @@
 /-
-C12 — PEG matching conforms to the PEG semantics.  Property theorems only.
+C12 — PEG matching conforms to the PEG semantics.  Property theorems only (proofs of the per-opcode lemmas are in
+JanetModel/Peg/Lemmas.lean).
+
+Model:  Peg/Op.lean   `Op.run`  = peg_rule, opcode by opcode, threading the mutable PegState
+        Peg/Den.lean  `Den.run` = denotation: a rule yields `none` or `some (next position, Delta)`; a failure yields nothing
+        Peg/Spec.lean source grammars read through `Spec.fetch` into the same denotation (the documented meaning)
+        Peg/Entry.lean peg/match, find, find-all, replace, replace-all as loops over one match attempt
 -/
+import JanetModel.Peg.Lemmas
 import JanetModel.Peg.Entry
 
 namespace JanetModel.Props.C12
@@ -9,5 +16,141 @@ open JanetModel.Peg
 /-- The decoder reads, for every fixed-size opcode, exactly as many words as the bytecode verifier in
     `peg_unmarshal` advances by (regenerated from the current peg.c). -/
 theorem decode_sizes_agree : JanetModel.Gen.Peg.opSizes = decodeSizes := by decide
+
+/-- **op_eq_den.**  For every program (any `fetch`: compiled bytecode through `decode`, or a source grammar through
+    `Spec.fetch`), text, arguments, start position, state and fuel, the operational run equals the denotation:
+    * the denotation raises `e`            ⇒ the run raises `e`;
+    * the denotation matches with `Δ`      ⇒ the run ends in exactly `s` extended by `Δ` (captures, tagged captures and
+                                             accumulation buffer), with mode, window end and depth as before;
+    * the denotation fails                 ⇒ the run fails in a state that differs from `s` at most by extra entries ABOVE
+                                             the old stack heights (mode, window, depth restored) — and `capLoad_restores`
+                                             shows every combinator that continues after a failure truncates back to `s`.
+    Hypothesis `E.lenprefixLeak = false` is the generated fact `Tie.lenprefix_mode_restored` about the current peg.c. -/
+theorem op_eq_den {ρ : Type} (E : Env) (hE : E.lenprefixLeak = false) (fetch : ρ → Option (Instr ρ))
+    (fuel : Nat) (r : ρ) (s : St) (pos : Nat) :
+    match Den.run E fetch fuel r s pos with
+    | .error e => Op.run E fetch fuel r s pos = .error e
+    | .ok none => ∃ s', Op.run E fetch fuel r s pos = .ok (none, s') ∧ s.le s'
+    | .ok (some (p, d)) => Op.run E fetch fuel r s pos = .ok (some p, s.extend d) :=
+  run_agree E hE fetch fuel r s pos
+
+/-- what `cap_load` does after a failed sub-rule: the state is exactly the one saved before it -/
+theorem capLoad_restores {s s' : St} (h : s.le s') : capLoad s' (capSave s) = s := capLoad_of_le h
+
+/-- a single match attempt (`peg_call_reset` + `peg_rule` from the start rule) gives the same captures and end position in both -/
+theorem opMatcher_eq_denMatcher {ρ : Type} (E : Env) (hE : E.lenprefixLeak = false) (fetch : ρ → Option (Instr ρ)) (main : ρ)
+    (fuel guard : Nat) : opMatcher E fetch main fuel guard = denMatcher E fetch main fuel guard := by
+  funext start
+  have h := op_eq_den E hE fetch fuel main (initSt E guard) start
+  simp only [opMatcher, denMatcher]
+  revert h
+  cases Den.run E fetch fuel main (initSt E guard) start with
+  | error e => intro h; simp [h]
+  | ok v =>
+    cases v with
+    | none => intro h; obtain ⟨s', h1, _⟩ := h; simp [h1]
+    | some pd =>
+      obtain ⟨p, d⟩ := pd
+      intro h
+      simp only at h
+      rw [h]
+      simp [St.extend, initSt]
+
+/-- all five entry points computed operationally equal the ones computed from the denotation -/
+theorem entry_points_op_eq_den {ρ : Type} (E : Env) (hE : E.lenprefixLeak = false) (fetch : ρ → Option (Instr ρ)) (main : ρ)
+    (fuel guard : Nat) (start : Nat) (subst : Val) (one : Bool) :
+    pegMatch (opMatcher E fetch main fuel guard) start = pegMatch (denMatcher E fetch main fuel guard) start ∧
+    pegFind (opMatcher E fetch main fuel guard) E.text.length start = pegFind (denMatcher E fetch main fuel guard) E.text.length start ∧
+    pegFindAll (opMatcher E fetch main fuel guard) E.text.length start = pegFindAll (denMatcher E fetch main fuel guard) E.text.length start ∧
+    pegReplace (opMatcher E fetch main fuel guard) E.text subst one start = pegReplace (denMatcher E fetch main fuel guard) E.text subst one start := by
+  rw [opMatcher_eq_denMatcher E hE]
+  exact ⟨rfl, rfl, rfl, rfl⟩
+
+/-! ### find / find-all agree with repeated matching -/
+
+/-- `peg/find-all` returns exactly the positions `i ∈ [start, len)` at which a single match attempt succeeds, in order
+    (for a matcher `m` that raises no error on that range, described by the pure function `f`). -/
+theorem find_all_agrees_with_repeated_match (m : Matcher) (f : Nat → Option (Nat × List Val)) (len start : Nat)
+    (hm : ∀ i, start ≤ i → i < len → m i = .ok (f i)) :
+    pegFindAll m len start = .ok ((List.range' start (len - start)).filter (fun i => (f i).isSome)) := by
+  unfold pegFindAll
+  generalize hn : len - start = n
+  induction n generalizing start with
+  | zero => simp [findAllLoop]
+  | succ n ih =>
+    have h0 : m start = .ok (f start) := hm start (Nat.le_refl _) (by omega)
+    have ih' := ih (start + 1) (fun i h1 h2 => hm i (by omega) h2) (by omega)
+    simp only [findAllLoop, h0, bind, Except.bind, List.range'_succ, List.filter_cons]
+    cases hf : f start with
+    | none => simp [ih']
+    | some v => simp [ih']
+
+/-- `peg/find` returns the first such position, or nil -/
+theorem find_agrees_with_repeated_match (m : Matcher) (f : Nat → Option (Nat × List Val)) (len start : Nat)
+    (hm : ∀ i, start ≤ i → i < len → m i = .ok (f i)) :
+    pegFind m len start = .ok ((List.range' start (len - start)).find? (fun i => (f i).isSome)) := by
+  unfold pegFind
+  generalize hn : len - start = n
+  induction n generalizing start with
+  | zero => simp [findLoop]
+  | succ n ih =>
+    have h0 : m start = .ok (f start) := hm start (Nat.le_refl _) (by omega)
+    have ih' := ih (start + 1) (fun i h1 h2 => hm i (by omega) h2) (by omega)
+    simp only [findLoop, h0, bind, Except.bind, List.range'_succ, List.find?_cons]
+    cases hf : f start with
+    | none => simp [ih']
+    | some v => simp
+
+/-- an error raised by a match attempt (e.g. `(error ...)`, recursion depth) at the first position where one is raised,
+    before any hit, is the result of `peg/find` -/
+theorem find_first_error (m : Matcher) (len start : Nat) (e : Err) (i : Nat) (hi : start ≤ i) (hlen : i < len)
+    (hbefore : ∀ j, start ≤ j → j < i → m j = .ok none) (herr : m i = .error e) :
+    pegFind m len start = .error e := by
+  unfold pegFind
+  generalize hn : i - start = k
+  induction k generalizing start with
+  | zero =>
+    have : i = start := by omega
+    subst this
+    obtain ⟨n, hn⟩ : ∃ n, len - i = n + 1 := ⟨len - i - 1, by omega⟩
+    simp [hn, findLoop, herr, bind, Except.bind]
+  | succ k ih =>
+    obtain ⟨n, hn'⟩ : ∃ n, len - start = n + 1 := ⟨len - start - 1, by omega⟩
+    have h0 := hbefore start (Nat.le_refl _) (by omega)
+    have := ih (start + 1) (by omega) (fun j h1 h2 => hbefore j (by omega) h2) (by omega)
+    have hl : len - (start + 1) = n := by omega
+    rw [hl] at this
+    simp [hn', findLoop, h0, bind, Except.bind, this]
+
+/-! ### non-vacuity and the witness for the defect on the pinned tree -/
+
+section Witness
+open JanetModel.Peg.Spec
+
+/-- `(accumulate (* (at-most 2 (lenprefix 1 1)) (position)))` on the empty text -/
+def leakGrammar : Patt := .accumulate (.seq [.atmost 2 (.lenprefix (.int 1) (.int 1)), .position 0]) 0
+
+def accumulated (r : MRes) : List Nat :=
+  match r with
+  | .ok (some (_, [Val.str b])) => b
+  | _ => [0]
+
+/-- the documented meaning: the position `0` is accumulated: "0" -/
+example : accumulated (denMatcher { text := [], args := [], hasBackref := false } Spec.fetch ⟨[], leakGrammar⟩ 20 1024 0) = [48] := by
+  decide
+
+/-- correct `lenprefix` (mode restored): the operational model gives the same (an instance of `op_eq_den`, hypotheses satisfiable) -/
+example : accumulated (opMatcher { text := [], args := [], hasBackref := false } Spec.fetch ⟨[], leakGrammar⟩ 20 1024 0) = [48] := by
+  decide
+
+/-- **witness**: with the `lenprefix` of the pinned tree (returns before `s->mode = oldmode`) the position capture is lost:
+    `op_eq_den` is false for `lenprefixLeak = true`; the same input is replayed on the implementation by checks/C12.py
+    (corpus/C12/targeted.json). -/
+theorem lenprefix_leak_breaks_op_eq_den :
+    accumulated (opMatcher { text := [], args := [], hasBackref := false, lenprefixLeak := true } Spec.fetch ⟨[], leakGrammar⟩ 20 1024 0) = []
+    ∧ accumulated (denMatcher { text := [], args := [], hasBackref := false, lenprefixLeak := true } Spec.fetch ⟨[], leakGrammar⟩ 20 1024 0) = [48] := by
+  decide
+
+end Witness
 
 end JanetModel.Props.C12
